@@ -15,6 +15,7 @@ import (
 
 	"verif/harness/kgen"
 	"verif/harness/mint"
+	"verif/harness/ref/der"
 	ref "verif/harness/ref/krbcrypto"
 )
 
@@ -41,8 +42,9 @@ type Case struct {
 	StartOff *int64   `json:"start_off_ms"` // nil = starttime absent
 	EndOff   int64    `json:"end_off_ms"`
 	AuthOff  int64    `json:"authtime_off_ms"`
-	CAddr    []string `json:"caddr"` // subset of {"A","B"}; nil = absent
-	PAC      string   `json:"pac"`   // "", "good", "badsig"
+	CAddr    []string `json:"caddr"`                   // subset of {"A","B"}; nil = absent
+	PAC      string   `json:"pac"`                     // "", "good", "badsig"
+	Trailing string   `json:"wire_trailing,omitempty"` // "" | "forged-encpart": unauthenticated clear-text EncTicketPart-shaped SEQUENCE appended to the Ticket on the wire
 	// authenticator
 	ACName   string `json:"auth_cname"`
 	ACRealm  string `json:"auth_crealm"`
@@ -349,12 +351,11 @@ func (c *Case) Mint(samplePAC []byte) (*Minted, error) {
 			return ""
 		}
 		n := mint.Name(s)
-		n[0] += suffix
-		out := n[0]
-		for _, x := range n[1:] {
-			out += "/" + x
+		n[len(n)-1] += suffix // at the very end, so that names differing only in component boundaries stay confusable
+		for i := range n {
+			n[i] = strings.ReplaceAll(n[i], "/", "%2F")
 		}
-		return out
+		return strings.Join(n, "/")
 	}
 	at := func(off int64) time.Time { return now.Add(time.Duration(off) * time.Millisecond).UTC() }
 	sess := mint.Key{EType: c.TktEType, Value: c.K("session", c.TktEType)}
@@ -387,6 +388,21 @@ func (c *Case) Mint(samplePAC []byte) (*Minted, error) {
 			return nil, err
 		}
 		t.AuthData = []mint.AD{mint.PACAuthData(p)}
+	}
+	if c.Trailing == "forged-encpart" {
+		// what a sender can put on the wire after the ticket's enc-part: a clear-text structure shaped like an
+		// EncTicketPart whose OPTIONAL members (addresses, start time, renew-till) favour the sender
+		fa := "A"
+		if c.ClientAddr != "" {
+			fa = c.ClientAddr
+		}
+		forged := der.M{"flags": mint.Flags32(0), "key": der.M{"keytype": int64(c.TktEType), "keyvalue": c.K("forged", c.TktEType)}, "crealm": "FORGED.ORG",
+			"cname": mint.PN(1, "forged"), "transited": der.M{"tr-type": int64(0), "contents": []byte{}}, "authtime": at(-1000).Truncate(time.Second),
+			"starttime": at(-100000).Truncate(time.Second), "endtime": at(999999000).Truncate(time.Second), "renew-till": at(999999000).Truncate(time.Second),
+			"caddr": []any{der.M{"addr-type": int64(2), "address": addrBytes[fa]}}}
+		inner, _ := der.Parse(der.EncTicketPart.MustEncode(forged))
+		seq, _ := inner.Explicit()
+		t.Trailing = seq.Raw
 	}
 	akey := sess
 	if c.AKey != "session" {
@@ -500,9 +516,15 @@ var Defects = map[string]func(c *Case){
 	"cname-mismatch":   func(c *Case) { c.ACName = "mallory" },
 	"cname-extra-comp": func(c *Case) { c.ACName = c.CName + "/admin" },
 	"cname-two-comp":   func(c *Case) { c.CName = "alice/admin"; c.ACName = "alice/admin" },
-	"cname-empty":      func(c *Case) { c.CName = ""; c.ACName = "" },
-	"crealm-mismatch":  func(c *Case) { c.ACRealm = "EVIL.ORG" },
-	"crealm-foreign":   func(c *Case) { c.CRealm = "PARTNER.NET"; c.ACRealm = "PARTNER.NET" },
+	// the same characters grouped into other components: ticket {"alice/admin"}, authenticator {"alice","admin"}
+	"cname-regrouped":                       func(c *Case) { c.CName = "alice%2Fadmin"; c.ACName = "alice/admin" },
+	"cname-regrouped-reverse":               func(c *Case) { c.CName = "alice/admin"; c.ACName = "alice%2Fadmin" },
+	"cname-slash-component":                 func(c *Case) { c.CName = "alice%2Fadmin"; c.ACName = "alice%2Fadmin" },
+	"wire-trailing-forged-encpart":          func(c *Case) { c.Trailing = "forged-encpart" },
+	"wire-trailing-forged-encpart-no-caddr": func(c *Case) { c.Trailing = "forged-encpart"; c.CAddr = nil; c.StartOff = nil },
+	"cname-empty":                           func(c *Case) { c.CName = ""; c.ACName = "" },
+	"crealm-mismatch":                       func(c *Case) { c.ACRealm = "EVIL.ORG" },
+	"crealm-foreign":                        func(c *Case) { c.CRealm = "PARTNER.NET"; c.ACRealm = "PARTNER.NET" },
 	"auth-usage-wrong": func(c *Case) {
 		if c.ExpectedAuthUsage() == 11 {
 			c.AUsage = 7
